@@ -7,6 +7,10 @@ readuntil single/multi separator with the window lemma, F10 negation witness, ex
 Correspondence: the Lean driver vs real SSHReader objects — driven directly through the session's entry points, through
 real channels from a raw peer (client stdout and server stdin side), through real channels under transport
 re-chunking — and vs a real SSHClientProcess fed every kind of ordering by a raw peer; drain against the real session.
+The raw peers keep to the receive window the reader's side advertised (since asyncssh counts data buffered while
+reading is paused against the window, anything else is a protocol error): what does not fit waits in the peer and is
+sent, split at the window edge, when a WINDOW_ADJUST has arrived; the model is run on the script as it was realized.
+Sends that ignore the window exist only as explicit hostile-peer oracle scenarios (expected: 'Window exceeded').
 Oracle: results must equal the specification of each call for several chunkings of the same stream; whenever wait()
 reports an exit status/signal the collected output must be everything sent before CLOSE; redirect targets receive all
 data then EOF; drain returns only when writable and fails when the channel is gone.
@@ -50,7 +54,9 @@ MANIFEST = {
             'receive-window arithmetic itself is C08; text mode exercised with a 1-byte codec (multi-byte boundaries '
             'are C07); redirect/drain: sync writers and the stream-session drain are modelled, async file/pipe/'
             'StreamWriter targets only exercised; readuntil results while reading is paused (more than a window '
-            'without separator) are checked by correspondence only',
+            'without separator) are checked by correspondence only; the raw peers of the harness are window-conforming '
+            'senders (the model is run on the realized script); a peer that exceeds the window is an explicit oracle '
+            'scenario whose expected outcome is the connection closed with Window exceeded',
     'technique': 'Lean 4 proof by induction over schedules / buffers / event lists + differential correspondence + '
                  'specification oracle over several chunkings',
 }
@@ -63,10 +69,14 @@ TRUSTED = [
     'exercised in the wire modes and must agree with the same model',
     're module: pat.search for an alternation of escaped literals = leftmost position, first alternative '
     '(validated by the correspondence on every run)',
+    'window account of the raw peers: window advertised at channel open + the CHANNEL_WINDOW_ADJUST values seen '
+    'arriving at the peer (class-level wrapper of SSHPacketLogger.log_received_packet, observation only) - bytes sent',
 ]
 ASSUMPTIONS = [
-    'peer respects the advertised receive window and sends no data after EOF / nothing after CLOSE (C08/C06 cover '
-    'what happens otherwise; the model predicts it and the correspondence checks the prediction)',
+    'peer respects the advertised receive window (the raw peers of the harness do; a peer that does not gets the '
+    'connection closed with Window exceeded, checked by the hostile-peer oracle scenarios; the arithmetic is C08) and '
+    'sends no data after EOF / nothing after CLOSE (C08/C06 cover what happens otherwise; the model predicts it and '
+    'the correspondence checks the prediction)',
     'readuntil theorems: fewer bytes than the pause limit arrive between separators (reading never paused)',
     'exit_with_complete_output: the channel is closed by CLOSE, not torn down by connection loss (F33 otherwise)',
 ]
@@ -93,37 +103,41 @@ def _kinds(results: Sequence[str], hist: Hist, prefix: str) -> None:
         hist.hit(prefix + r.split(':')[0].split('=')[0])
 
 
-async def _run_direct(cases: List[Tuple[int, List[Tuple], bool]]) -> List[List[str]]:
+async def _run_direct(cases: List[Tuple[int, List[Tuple], bool]]) -> List[Tuple[List[str], List[Tuple]]]:
     out = []
     for limit, toks, text in cases:
-        out.append(await I.run_script(I.DirectFeeder(limit, text), toks))
+        try:
+            out.append(await I.run_script(I.DirectFeeder(limit, text), toks))
+        except Exception as e:      # noqa: BLE001  (the code under test broke the stand-in set-up)
+            out.append((['harness-scenario-failed:' + type(e).__name__], list(toks)))
     return out
 
 
-async def _run_wire(cases: List[Tuple[int, List[Tuple]]], mode: str, chunker: Any = None) -> List[List[str]]:
-    out: List[List[str]] = []
-    w: Optional[I.Wire] = None
-    cur_window = None
-    n_on_conn = 0
+async def _run_wire(cases: List[Tuple[int, List[Tuple]]], mode: str,
+                    chunker_factory: Any = None) -> List[Tuple[List[str], List[Tuple]]]:
+    """every case on a fresh channel of a shared connection, fed by a window-conforming raw peer; returns
+    (results, realized script) per case.  A case that fails (the connection died, no channel could be opened, the
+    reader raised something unexpected) is recorded as its outcome and the rig is reopened for the next one."""
+    out: List[Tuple[List[str], List[Tuple]]] = []
+    rig = I.Rig(chunker_factory)
     for limit, toks in cases:
-        need_new = w is None or n_on_conn >= 40 or (mode == 'server' and cur_window != limit)
-        if need_new:
-            if w is not None:
-                await w.stop()
-            w = I.Wire()
-            await w.start(chunker=chunker, server_window=limit if mode == 'server' else 2 ** 21)
-            cur_window, n_on_conn = limit, 0
-        n_on_conn += 1
-        assert w is not None
-        reader, peer, cp = await w.open(mode, limit)
-        f = I.WireFeeder(reader, peer, hub=w.hub)
+        cp = None
         try:
-            out.append(await asyncio.wait_for(I.run_script(f, toks), 30))
+            f, cp = await rig.feeder(mode, limit)
+            res, real = await asyncio.wait_for(I.run_script(f, toks), 30)
+            if not rig.alive():
+                res = res + ['connection-closed']
+            out.append((res, real))
         except asyncio.TimeoutError:
-            out.append(['harness-timeout'])
-        cp.channel.abort()
-    if w is not None:
-        await w.stop()
+            out.append((['harness-timeout'], list(toks)))
+        except Exception as e:      # noqa: BLE001
+            out.append((['harness-scenario-failed:%s' % type(e).__name__], list(toks)))
+        try:
+            if cp is not None:
+                cp.channel.abort()
+        except Exception:       # noqa: BLE001
+            pass
+    await rig.close()
     return out
 
 
@@ -194,6 +208,16 @@ async def _run_drain(cases: List[Tuple[List[str], List[str]]]) -> List[str]:
     return out
 
 
+def _conformance_stats(toks: Sequence[Tuple], real: Sequence[Tuple], hist: Hist, mode: str) -> None:
+    """how often the window made the peer hold data back / split it (the scripts must keep reaching those states)"""
+    scripted = [a for t in toks if t[0] == 'G' for a in t[1]]
+    sent = [a for t in real if t[0] == 'G' for a in t[1]]
+    if sent != scripted:
+        hist.hit(mode + ':peer-held-data-back-for-the-window')
+        if b''.join(a[1] for a in sent if a[0] == 'd') != b''.join(a[1] for a in scripted if a[0] == 'd'):
+            hist.hit(mode + ':part-of-the-stream-never-fitted')
+
+
 def correspondence(ctx: Ctx) -> CorrResult:
     res = CorrResult()
     hist = Hist()
@@ -207,8 +231,8 @@ def correspondence(ctx: Ctx) -> CorrResult:
         limit, toks, info = G.gen_reader_script(rng, 'direct')
         direct.append((limit, toks, rng.random() < 0.25))
     out = pair.run(_run_direct(direct), timeout=900)
-    for (limit, toks, text), r in zip(direct, out):
-        lines.append(I.script_line(limit, toks))
+    for (limit, _toks, text), (r, real) in zip(direct, out):
+        lines.append(I.script_line(limit, real))
         expect.append(('reader-direct', {'mode': 'direct', 'limit': limit, 'text': text}, ';'.join(r)))
         _kinds(r, hist, 'direct:')
     res.nontrivial += len(set(lines))
@@ -224,10 +248,13 @@ def correspondence(ctx: Ctx) -> CorrResult:
             cases.sort(key=lambda c: c[0])      # one connection per window size
         out = pair.run(_run_wire(cases, mode), timeout=900)
         n0 = len(lines)
-        for (limit, toks), r in zip(cases, out):
-            lines.append(I.script_line(limit, toks))
-            expect.append(('reader-wire-' + mode, {'mode': mode, 'limit': limit}, ';'.join(r)))
+        for (limit, toks), (r, real) in zip(cases, out):
+            # the model runs on what the window-conforming peer really sent and when (the realized script)
+            lines.append(I.script_line(limit, real))
+            expect.append(('reader-wire-' + mode, {'mode': mode, 'limit': limit, 'scripted': I.script_line(limit, toks)},
+                           ';'.join(r)))
             _kinds(r, hist, mode + ':')
+            _conformance_stats(toks, real, hist, mode)
         res.nontrivial += len(set(lines[n0:]))
 
     # (3) real channel with the transport bytes re-chunked (wake-up grouping out of the script's hands) --------------
@@ -237,10 +264,11 @@ def correspondence(ctx: Ctx) -> CorrResult:
         limit, toks, info = G.gen_reader_script(rng, 'client')
         if _determinate(toks) and len(info['data']) < 30:
             cases.append((4096, toks))
-    out = pair.run(_run_wire(cases, 'client', chunker=pair.seeded_chunker(ctx.subrng('corr-chunker-hub'), 48)),
+    out = pair.run(_run_wire(cases, 'client',
+                             chunker_factory=lambda k: pair.seeded_chunker(ctx.subrng('corr-chunker-hub%d' % k), 48)),
                    timeout=900)
-    for (limit, toks), r in zip(cases, out):
-        lines.append(I.script_line(limit, toks))
+    for (limit, toks), (r, real) in zip(cases, out):
+        lines.append(I.script_line(limit, real))
         expect.append(('reader-rechunked', {'mode': 'client', 'limit': limit, 'chunker': True}, ';'.join(r)))
         _kinds(r, hist, 'rechunked:')
 
@@ -248,23 +276,30 @@ def correspondence(ctx: Ctx) -> CorrResult:
     rng = ctx.subrng('corr-proc')
     pcases = [G.gen_proc_events(rng, rng.random() < 0.7) for _ in range(ctx.n(500, 3000))]
 
-    async def run_procs() -> List[str]:
+    async def run_procs() -> List[Tuple[str, List[Tuple]]]:
         o = []
         for limit, evs, info in pcases:
             try:
-                o.append(I.canon_proc(await asyncio.wait_for(I.run_proc_events(limit, evs), 30)))
+                obs = await asyncio.wait_for(I.run_proc_events(limit, evs), 30)
+                o.append((I.canon_proc(obs), obs['events']))
             except asyncio.TimeoutError:
-                o.append('harness-timeout')
+                o.append(('harness-timeout', list(evs)))
+            except Exception as e:      # noqa: BLE001
+                o.append(('harness-scenario-failed:' + type(e).__name__, list(evs)))
         return o
     out_p = pair.run(run_procs(), timeout=900)
-    for (limit, evs, info), r in zip(pcases, out_p):
-        lines.append(I.proc_line(limit, evs))
-        expect.append(('process-events', {'limit': limit, 'events': [I.pev_str(e) for e in evs]}, r))
+    n0 = len(lines)
+    for (limit, evs, info), (r, real_evs) in zip(pcases, out_p):
+        lines.append(I.proc_line(limit, real_evs))      # what the window-conforming peer really sent, in that order
+        expect.append(('process-events', {'limit': limit, 'events': [I.pev_str(e) for e in real_evs],
+                                          'scripted': [I.pev_str(e) for e in evs]}, r))
         hist.hit('proc:' + r.split(',')[0].split(' ')[0])
+        if [e for e in real_evs if e[0] in I.WIRE_EVENTS] != [e for e in evs if e[0] in I.WIRE_EVENTS]:
+            hist.hit('proc:peer-held-data-back-for-the-window')
         for k in ('late_wait', 'disconnect', 'redirect'):
             if info[k]:
                 hist.hit('proc:' + k)
-    res.nontrivial += len(set(I.proc_line(l, e) for l, e, _ in pcases))
+    res.nontrivial += len(set(lines[n0:]))
 
     # (5) drain: every short event sequence (exhaustive) ---------------------------------------------------------
     dcases = _drain_cases()
@@ -289,8 +324,10 @@ def correspondence(ctx: Ctx) -> CorrResult:
                 'at random places, separators single/list/regex from substrings of the stream incl. infix-related and '
                 'empty ones, n around the buffered amount and the limit) run in 4 ways; process event lists '
                 '(70% protocol-conformant orderings with exit status at every position, 30% not) with loop turns, '
-                'wait()/redirect/disconnect at random moments; drain over all event sequences of length <= 2+2; '
-                'distinct = distinct script lines')
+                'wait()/redirect/disconnect at random moments; on real channels the raw peer keeps to the advertised '
+                'window (limits 8..4096 with up to 48 / 168 bytes: reading pauses, the channel buffer fills to the last '
+                'byte, the peer holds back and splits data) and the model runs on the realized script; drain over all '
+                'event sequences of length <= 2+2; distinct = distinct script lines')
     return res
 
 
@@ -432,7 +469,7 @@ def classify_spec_failure(ops: Sequence[Tuple], idx: int) -> str:
 
 
 async def eval_spec_case(data: bytes, ops: Sequence[Tuple], deliveries: Sequence[Tuple[str, int, List[Tuple]]],
-                         wire: Optional[I.Wire] = None) -> List[Tuple[Tuple[str, int, List[Tuple]], List[str], List[str], int, str]]:
+                         wire: Optional[I.Rig] = None) -> List[Tuple[Tuple[str, int, List[Tuple]], List[str], List[str], int, str]]:
     """run the same calls under several deliveries of the same stream; returns
     [(delivery, actual, expected, bad index, signature)] for those that leave the specification, and — for separator
     lists where one separator lies inside another — for deliveries that disagree with the first one"""
@@ -440,22 +477,34 @@ async def eval_spec_case(data: bytes, ops: Sequence[Tuple], deliveries: Sequence
     runs: List[Tuple[Tuple[str, int, List[Tuple]], List[str]]] = []
     for d in deliveries:
         name, limit, toks = d
-        if name.startswith('wire'):
-            assert wire is not None
-            reader, peer, cp = await wire.open('client', limit)
-            feeder: I.Feeder = I.WireFeeder(reader, peer, hub=wire.hub)
-        else:
-            feeder = I.DirectFeeder(limit, name.endswith('text'))
+        cp = None
         try:
-            actual = await asyncio.wait_for(I.run_script(feeder, toks, arrivals_independent=True), 30)
+            if name.startswith('wire'):
+                # real channel; the raw peer conforms to the window `limit` and keeps sending as it re-opens
+                assert wire is not None
+                feeder: I.Feeder
+                feeder, cp = await wire.feeder('client', limit)
+            else:
+                feeder = I.DirectFeeder(limit, name.endswith('text'))
+            actual, _real = await asyncio.wait_for(I.run_script(feeder, toks, arrivals_independent=True), 30)
+            if cp is not None and not wire.alive():     # type: ignore
+                actual = actual + ['connection-closed']
         except asyncio.TimeoutError:
             actual = ['harness-timeout']
-        if name.startswith('wire'):
-            cp.channel.abort()
+        except Exception as e:      # noqa: BLE001
+            actual = ['scenario-failed:%s' % type(e).__name__]
+        try:
+            if cp is not None:
+                cp.channel.abort()
+        except Exception:       # noqa: BLE001
+            pass
         runs.append((d, actual))
         exp, idx = spec_results(data, ops, actual)
         if idx is not None:
             bad.append((d, actual, exp, idx, classify_spec_failure(ops, idx)))
+        elif actual[-1:] == ['connection-closed'] and ops:
+            bad.append((d, actual, exp + ['connection still open'], len(ops) - 1,
+                        'stream-read:connection-closed-although-the-peer-kept-to-the-window'))
     # chunking dependence for the ambiguous separator lists
     amb = [i for i, t in enumerate(ops) if seps_of(t) and len(seps_of(t)) > 1 and not G.infix_free(seps_of(t))]
     if amb and runs:
@@ -546,18 +595,10 @@ def oracle_spec(ctx: Ctx, res: OracleResult, hist: Hist) -> None:
 
     async def run_all() -> List[Failure]:
         fails: List[Failure] = []
-        wire = I.Wire()
-        await wire.start(chunker=pair.seeded_chunker(ctx.subrng('oracle-spec-hub'), 64))
-        opened = 0
+        wire = I.Rig(lambda k: pair.seeded_chunker(ctx.subrng('oracle-spec-hub%d' % k), 64))
         for ci, (data, ops, cks) in enumerate(cases):
             with_wire = ci % 4 == 0
             dels = deliveries_for(rng, data, ops, 3, with_wire, cks)
-            if with_wire:
-                opened += 1
-                if opened % 40 == 0:
-                    await wire.stop()
-                    wire = I.Wire()
-                    await wire.start(chunker=pair.seeded_chunker(ctx.subrng('oracle-spec-hub%d' % opened), 64))
             bad = await eval_spec_case(data, ops, dels, wire)
             res.evaluations += len(dels)
             for t in ops:
@@ -572,7 +613,7 @@ def oracle_spec(ctx: Ctx, res: OracleResult, hist: Hist) -> None:
                 if sig == SIG_F10:      # the replay needs both deliveries
                     f.replay['deliveries'] = [[n, l, [I.tok_str(t) for t in tk]] for n, l, tk in (dels[0], d)]
                 fails.append(f)
-        await wire.stop()
+        await wire.close()
         return fails
     fails = pair.run(run_all(), timeout=1500)
     res.failures += fails
@@ -604,6 +645,8 @@ def is_conformant(evs: Sequence[Tuple]) -> bool:
     for e in evs:
         if e[0] in 'twrx':
             continue
+        if e[0] in 'vV':
+            return False    # data sent without regard to the window
         if seen_close:
             return False
         if e[0] in 'dD' and seen_eof:
@@ -644,6 +687,27 @@ def exit_predicate(evs: Sequence[Tuple], obs: Dict[str, Any]) -> Optional[Tuple[
     return None
 
 
+async def eval_exit_case(limit: int, evs: Sequence[Tuple]) -> Tuple[Optional[Tuple[str, str]], List[Tuple]]:
+    """play the events (window-conforming raw peer) and judge what was really sent; a scenario that cannot be played
+    is an outcome of its own, never a harness crash.  Returns (None or (signature, description), realized events)."""
+    try:
+        obs = await asyncio.wait_for(I.run_proc_events(limit, evs), 30)
+    except asyncio.TimeoutError:
+        return ('process-scenario:timed-out', 'the scenario did not finish within 30 s'), list(evs)
+    except Exception as e:      # noqa: BLE001
+        return ('process-scenario:failed:' + type(e).__name__, 'the scenario could not be played: %s: %s'
+                % (type(e).__name__, e)), list(evs)
+    real = obs['events']
+    if obs.get('hostile'):
+        return hostile_proc_predicate(real, obs), real
+    bad = exit_predicate(real, obs)
+    if bad is None and is_conformant(real) and obs.get('conn_lost') not in (None, 'clean') and \
+            not any(e[0] == 'x' for e in real):
+        bad = ('connection-closed-although-the-peer-kept-to-the-protocol:' + str(obs['conn_lost']).split(':')[0],
+               'the client connection was closed with %s' % obs['conn_lost'])
+    return bad, real
+
+
 def gen_exit_case(rng: Any, disconnect: bool) -> Tuple[int, List[Tuple]]:
     limit = rng.choice([8, 16, 32, 64])
     maxd = max(1, limit // 2)
@@ -672,14 +736,22 @@ def gen_exit_case(rng: Any, disconnect: bool) -> Tuple[int, List[Tuple]]:
     return limit, evs
 
 
+# (the loop turn after the first 8 bytes lets the WINDOW_ADJUST reach the peer: the rest is sent inside the window)
 EXIT_CORPUS = [
-    (8, [('d', b'AAAA'), ('d', b'BBBB'), ('d', b'CC'), ('s', 3), ('e',), ('c',), ('t',), ('w',), ('t',)]),
-    (8, [('s', 3), ('d', b'AAAA'), ('D', b'EE'), ('d', b'BBBB'), ('d', b'CC'), ('c',), ('t',), ('w',), ('t',)]),
-    (8, [('t',), ('w',), ('t',), ('d', b'AAAA'), ('d', b'BBBB'), ('d', b'CC'), ('e',), ('S', 9), ('c',), ('t',)]),
+    (8, [('d', b'AAAA'), ('d', b'BBBB'), ('t',), ('d', b'CC'), ('s', 3), ('e',), ('c',), ('t',), ('w',), ('t',)]),
+    (8, [('s', 3), ('d', b'AAAA'), ('D', b'EE'), ('t',), ('d', b'BBBB'), ('d', b'CC'), ('c',), ('t',), ('w',), ('t',)]),
+    (8, [('t',), ('w',), ('t',), ('d', b'AAAA'), ('d', b'BBBB'), ('t',), ('d', b'CC'), ('e',), ('S', 9), ('c',), ('t',)]),
+    # the channel's own buffer filled to the last byte of the window while reading is paused, then collected
+    (8, [('d', b'AAAA'), ('d', b'BBBB'), ('t',), ('d', b'CCCC'), ('D', b'EEEE'), ('s', 3), ('e',), ('c',), ('t',),
+         ('w',), ('t',)]),
+    # more than two windows: the peer has to wait for wait() before it can send the tail, the status and CLOSE
+    (8, [('d', b'AAAA'), ('d', b'BBBB'), ('t',), ('d', b'CCCC'), ('d', b'DDDD'), ('d', b'EEEE'), ('d', b'FF'), ('s', 3),
+         ('e',), ('c',), ('t',), ('w',), ('t',)]),
 ]
 F33_CORPUS = [
-    (8, [('d', b'AAAA'), ('d', b'BBBB'), ('d', b'CC'), ('s', 3), ('e',), ('c',), ('t',), ('x', 0), ('t',), ('w',), ('t',)]),
-    (8, [('d', b'AAAA'), ('d', b'BBBB'), ('d', b'CC'), ('e',), ('t',), ('x', 1), ('t',), ('w',), ('t',)]),
+    (8, [('d', b'AAAA'), ('d', b'BBBB'), ('t',), ('d', b'CC'), ('s', 3), ('e',), ('c',), ('t',), ('x', 0), ('t',),
+         ('w',), ('t',)]),
+    (8, [('d', b'AAAA'), ('d', b'BBBB'), ('t',), ('d', b'CC'), ('e',), ('t',), ('x', 1), ('t',), ('w',), ('t',)]),
 ]
 
 
@@ -753,15 +825,7 @@ def oracle_exit(ctx: Ctx, res: OracleResult, hist: Hist) -> None:
     for s in ctx.suspects:
         if isinstance(s, dict) and str(s.get('line', '')).startswith('P '):
             parts = s['line'].split()
-            evs = []
-            for x in parts[2:]:
-                if x[0] in 'dD':
-                    evs.append((x[0], unhx(x[1:])))
-                elif x[0] in 'sSxr':
-                    evs.append((x[0], int(x[1:])))
-                else:
-                    evs.append((x,))
-            cases.append((int(parts[1]), evs, 'suspect'))
+            cases.append((int(parts[1]), [I.parse_pev(x) for x in parts[2:]], 'suspect'))
     for _ in range(ctx.n(150, 1500)):
         l, e = gen_exit_case(rng, False)
         cases.append((l, e, 'random'))
@@ -772,18 +836,18 @@ def oracle_exit(ctx: Ctx, res: OracleResult, hist: Hist) -> None:
     async def run_raw() -> List[Failure]:
         fails: List[Failure] = []
         for limit, evs, origin in cases:
-            try:
-                obs = await asyncio.wait_for(I.run_proc_events(limit, evs), 30)
-            except asyncio.TimeoutError:
-                continue
             res.evaluations += 1
             hist.hit('exit:' + origin)
-            bad = exit_predicate(evs, obs)
+            bad, real = await eval_exit_case(limit, evs)
+            if real != list(evs):
+                hist.hit('exit:peer-held-data-back-for-the-window')
             if bad:
                 hist.hit('exit-fail:' + bad[0])
                 fails.append(Failure(signature=bad[0],
-                                     what='%s for wire/application events [%s] with pause limit %d'
-                                          % (bad[1], ' '.join(I.pev_str(e) for e in evs), limit),
+                                     what='%s for wire/application events [%s] with pause limit %d (scripted for the '
+                                          'window-conforming peer as [%s])'
+                                          % (bad[1], ' '.join(I.pev_str(e) for e in real), limit,
+                                             ' '.join(I.pev_str(e) for e in evs)),
                                      replay={'kind': 'proc-events', 'limit': limit,
                                              'events': [I.pev_str(e) for e in evs]}))
         return fails
@@ -806,13 +870,20 @@ def oracle_exit(ctx: Ctx, res: OracleResult, hist: Hist) -> None:
         fails: List[Failure] = []
         for k, (window, pieces, status, late, disc) in enumerate(api_cases):
             chunker = pair.seeded_chunker(ctx.subrng('oracle-exit-hub%d' % k), 64) if k % 2 else None
-            obs = await run_exit_api(window, pieces, status, late, disc, chunker)
             res.evaluations += 1
             hist.hit('exit-api:' + ('disconnect' if disc else 'late' if late else 'early'))
-            w = obs['wait']
             desc = None
             sig = None
-            if isinstance(w, str):
+            try:
+                obs = await asyncio.wait_for(run_exit_api(window, pieces, status, late, disc, chunker), 60)
+                w = obs['wait']
+            except Exception as e:      # noqa: BLE001  (TimeoutError included)
+                obs, w = {'sent': (b'', b'')}, 'scenario'
+                sig, desc = ('process-scenario:failed:public-api-server:' + type(e).__name__,
+                             'the scenario could not be played: %s: %s' % (type(e).__name__, e))
+            if sig:
+                pass
+            elif isinstance(w, str):
                 sig, desc = ('wait-raises:' + w, 'wait() raised ' + w)
                 if 'AssertionError' in w:
                     sig = SIG_F33B
@@ -846,6 +917,217 @@ def _dedupe(fails: List[Failure]) -> List[Failure]:
             seen.add(f.signature)
             out.append(f)
     return out
+
+
+# ---------------------------------------------------------------------------
+# oracle (b'): hostile peer — the only scenarios in which the raw peer ignores the receive window.
+# Before asyncssh counted paused data against the window these sends were silently accepted (and every raw-peer
+# scenario above used them); now they are kept as scenarios of their own with the expected outcome: the connection
+# is closed with 'Window exceeded', the stream API hands out only what was sent inside the window and then reports
+# the error — while a packet that fills the window to its last byte (the control) is accepted and delivered.
+
+SIG_HOSTILE_ACCEPTED = 'hostile-peer:data-beyond-the-window-not-rejected'
+SIG_HOSTILE_LEAK = 'hostile-peer:data-beyond-the-window-delivered'
+SIG_FULL_WINDOW = 'conforming-peer:packet-filling-the-window-exactly-rejected-or-lost'
+
+
+async def run_hostile_reader(rig: I.Rig, mode: str, window: int, chunks: List[bytes], pre_read: int,
+                             over: int) -> Tuple[Optional[Tuple[str, str]], Dict[str, Any]]:
+    """conforming delivery of `chunks` (the peer holds back what does not fit), an optional readexactly(pre_read),
+    then one packet of `left + over` bytes.  Returns (None or (signature, description), facts for the histogram)."""
+    f, cp = await rig.feeder(mode, window)
+    toks: List[Tuple] = [('G', [('d', c) for c in chunks])]
+    if pre_read:
+        toks.append(('X', pre_read))
+    results, real = await asyncio.wait_for(I.run_script(f, toks), 30)
+    sent = b''.join(a[1] for t in real if t[0] == 'G' for a in t[1] if a[0] == 'd')
+    got = b''
+    for r in results:
+        if r.startswith('ok:') or r.startswith('inc:'):
+            got += unhx(r.split(':', 1)[1])
+    left = f.credit.left()
+    nread = len(got)
+    facts = {'left': left, 'held_back': f.has_pending(), 'paused': len(sent) - len(got) >= window}
+    f.pending.clear()
+    packet = f.send_hostile(over)
+    await f.settle()
+    if over == 0:
+        await f.apply([('e',)])
+        await f.settle()
+    elif rig.alive():
+        try:
+            cp.channel.abort()
+        except Exception:       # noqa: BLE001
+            pass
+        return (SIG_HOSTILE_ACCEPTED + ':%s-reader' % mode,
+                "%s reader, window %d, %d bytes sent inside the window (%d read), %d left, then one packet of %d bytes: "
+                "expected the connection to be closed with ProtocolError('Window exceeded'); it is still open"
+                % (mode, window, len(sent), len(got), left, len(packet))), facts
+    exc: Optional[BaseException] = None
+    for _ in range(200):
+        try:
+            d = await asyncio.wait_for(f.reader.read(-1), 10)
+        except asyncio.TimeoutError:
+            return ('hostile-peer:read-never-returns', 'read() blocked after the peer had sent %d bytes into a window '
+                    'of %d' % (len(packet), left)), facts
+        except BaseException as e:      # noqa: BLE001
+            exc = e
+            break
+        if not d:
+            break
+        got += d
+    closed = not rig.alive()
+    try:
+        cp.channel.abort()
+    except Exception:       # noqa: BLE001
+        pass
+    where = '%s reader, window %d, %d bytes sent inside the window (%d read before the packet), %d left, then one ' \
+        'packet of %d bytes' % (mode, window, len(sent), nread, left, len(packet))
+    if over == 0:
+        if closed or exc is not None or got != sent + packet:
+            return (SIG_FULL_WINDOW, '%s: connection closed=%r, reader raised %r, %d of %d bytes delivered'
+                    % (where, closed, exc, len(got), len(sent) + len(packet))), facts
+        return None, facts
+    if bytes([I.HOSTILE_FILL]) in got or not sent.startswith(got):
+        return (SIG_HOSTILE_LEAK, '%s: the reader returned %r, which is not a prefix of the %d bytes sent inside '
+                'the window' % (where, got, len(sent))), facts
+    reason = getattr(exc, 'reason', '')
+    if not closed or not isinstance(exc, asyncssh.ProtocolError) or 'Window exceeded' not in str(reason):
+        return (SIG_HOSTILE_ACCEPTED + ':%s-reader' % mode,
+                "%s: expected the connection to be closed and the reader to raise ProtocolError('Window exceeded') "
+                'after the buffered data; connection closed=%r, reader %s'
+                % (where, closed, 'reached EOF' if exc is None else 'raised %s(%r)' % (type(exc).__name__, reason))), facts
+    return None, facts
+
+
+def hostile_proc_predicate(real: Sequence[Tuple], obs: Dict[str, Any]) -> Optional[Tuple[str, str]]:
+    """events contain one v<n>/V<n> with n > 0, sent while the connection was up"""
+    upto = list(itertools.takewhile(lambda e: e[0] not in 'vV', real))
+    sent_out = b''.join(e[1] for e in upto if e[0] == 'd')
+    sent_err = b''.join(e[1] for e in upto if e[0] == 'D')
+    w = obs['wait']
+    waited = any(e[0] == 'w' for e in real)
+    got_out, got_err = obs['target'], b''
+    if isinstance(w, tuple):
+        got_out, got_err = got_out + w[2], w[3]
+    fill = bytes([I.HOSTILE_FILL])
+    if fill in got_out or fill in got_err or not sent_out.startswith(got_out) or not sent_err.startswith(got_err):
+        return SIG_HOSTILE_LEAK, ('stdout %r / stderr %r handed to the application; inside the window the peer had sent '
+                                  '%r / %r' % (got_out, got_err, sent_out, sent_err))
+    lost = str(obs.get('conn_lost'))
+    if not obs.get('closed') or not lost.startswith('ProtocolError') or 'Window exceeded' not in lost:
+        return SIG_HOSTILE_ACCEPTED + ':process', ("expected the client connection to be closed with ProtocolError("
+                                                  "'Window exceeded'); closed=%r, connection_lost got %s"
+                                                  % (obs.get('closed'), lost))
+    if waited and w is None:
+        return 'hostile-peer:wait-never-returns', 'wait() still pending after the connection was closed'
+    if isinstance(w, str) and 'ProtocolError' not in w:
+        return 'hostile-peer:wait-raises:' + w.split(':')[-1], 'wait() ' + w
+    return None
+
+
+def gen_hostile_proc(rng: Any) -> Tuple[int, List[Tuple]]:
+    limit = rng.choice([8, 16, 32, 64])
+    maxd = max(1, limit // 2)
+    wire: List[Tuple] = [('D' if rng.random() < 0.3 else 'd', bytes([65 + i]) * rng.randint(1, maxd))
+                         for i in range(rng.randint(0, 6))]
+    if rng.random() < 0.4:
+        wire.insert(rng.randint(0, len(wire)), ('s', rng.choice([0, 3])))
+    over = rng.choice([0, 0, 1, 1, 1, 2, limit, 5 * limit])
+    hostile_at = rng.randint(0, len(wire))
+    wire.insert(hostile_at, (rng.choice('vvV'), over))
+    tail: List[Tuple] = [('e',), ('s', 7), ('c',)] if over == 0 and not any(e[0] == 's' for e in wire) else \
+        ([('e',), ('c',)] if over == 0 else [])
+    wire += tail
+    wait_at = rng.choice([0, len(wire), len(wire), rng.randint(0, len(wire))])
+    evs: List[Tuple] = []
+    for i in range(len(wire) + 1):
+        if wait_at == i:
+            evs += [('t',), ('w',), ('t',)]
+        if i < len(wire):
+            if wire[i][0] in 'vV':
+                # every WINDOW_ADJUST on its way has reached the peer: what it believes is left of the window is
+                # what the receiver believes, so `over` more than that is a violation the receiver can see
+                evs.append(('t',))
+            evs.append(wire[i])
+            if rng.random() < 0.5 or wire[i][0] in 'vV':
+                evs.append(('t',))
+    evs.append(('t',))
+    return limit, evs
+
+
+HOSTILE_PROC_CORPUS = [
+    # reading paused, the channel's buffer half full: one byte too many / exactly full
+    (8, [('d', b'AAAA'), ('d', b'BBBB'), ('t',), ('d', b'CCCC'), ('t',), ('v', 1), ('t',), ('w',), ('t',)]),
+    (8, [('d', b'AAAA'), ('d', b'BBBB'), ('t',), ('d', b'CCCC'), ('t',), ('v', 0), ('t',), ('s', 3), ('e',), ('c',),
+         ('t',), ('w',), ('t',)]),
+    # exit status already received, then the violation: the output that comes with the status is a prefix only
+    (8, [('d', b'AAAA'), ('d', b'BBBB'), ('t',), ('s', 3), ('d', b'CCCC'), ('t',), ('V', 1), ('t',), ('w',), ('t',)]),
+    # nothing paused (wait() collects): a packet larger than the whole window
+    (16, [('t',), ('w',), ('t',), ('d', b'AAAA'), ('t',), ('v', 1), ('t',)]),
+]
+
+
+def oracle_hostile(ctx: Ctx, res: OracleResult, hist: Hist) -> None:
+    rng = ctx.subrng('oracle-hostile')
+    rcases: List[Tuple[str, int, List[bytes], int, int]] = []
+    for mode in ('client', 'server'):
+        for window, nbytes, pre, over in ((8, 8, 0, 1), (8, 16, 0, 1), (8, 12, 0, 0), (8, 16, 0, 0), (8, 3, 0, 6),
+                                         (8, 12, 5, 1), (16, 0, 0, 17), (16, 0, 0, 0)):
+            data = bytes(97 + (i % 8) for i in range(nbytes))
+            rcases.append((mode, window, G.gen_chunking(rng, data, max(1, window // 2)), pre, over))
+    for _ in range(ctx.n(60, 500)):
+        window = rng.choice([8, 16, 64])
+        data = bytes(rng.choice(b'abc\n') for _ in range(rng.choice([0, rng.randint(0, 3 * window), window, 2 * window])))
+        pre = rng.choice([0, 0, rng.randint(1, max(1, len(data)))]) if data else 0
+        rcases.append((rng.choice(['client', 'server']), window, G.gen_chunking(rng, data, max(1, window // 2)),
+                       min(pre, len(data)), rng.choice([0, 1, 1, 1, 2, window, 5 * window])))
+    rcases.sort(key=lambda c: (c[0], c[1]) if c[0] == 'server' else ('', 0))     # one server connection per window
+
+    async def run_readers() -> List[Failure]:
+        fails: List[Failure] = []
+        rig = I.Rig(per_conn=25)
+        for mode, window, chunks, pre, over in rcases:
+            res.evaluations += 1
+            replay = {'kind': 'hostile-reader', 'mode': mode, 'window': window, 'chunks': [c.hex() for c in chunks],
+                      'pre_read': pre, 'over': over}
+            try:
+                bad, facts = await asyncio.wait_for(run_hostile_reader(rig, mode, window, chunks, pre, over), 60)
+            except Exception as e:      # noqa: BLE001  (TimeoutError included)
+                bad, facts = ('hostile-peer:scenario-failed:' + type(e).__name__,
+                              'the scenario could not be played: %s: %s' % (type(e).__name__, e)), {}
+            hist.hit('hostile-reader:%s:%s' % (mode, 'window-filled-exactly' if over == 0 else 'window-exceeded'))
+            if facts.get('paused'):
+                hist.hit('hostile-reader:while-reading-paused')
+            if facts.get('left') == 0:
+                hist.hit('hostile-reader:no-window-left')
+            if bad:
+                hist.hit('hostile-fail:' + bad[0])
+                fails.append(Failure(signature=bad[0], what=bad[1], replay=replay))
+        await rig.close()
+        return fails
+    res.failures += _dedupe(pair.run(run_readers(), timeout=1500))
+
+    pcases = list(HOSTILE_PROC_CORPUS) + [gen_hostile_proc(rng) for _ in range(ctx.n(60, 500))]
+
+    async def run_procs() -> List[Failure]:
+        fails: List[Failure] = []
+        for limit, evs in pcases:
+            res.evaluations += 1
+            bad, real = await eval_exit_case(limit, evs)
+            control = not any(e[0] in 'vV' for e in real)
+            hist.hit('hostile-process:' + ('window-filled-exactly' if control else 'window-exceeded'))
+            if bad:
+                hist.hit('hostile-fail:' + bad[0])
+                fails.append(Failure(signature=bad[0],
+                                     what='%s for wire/application events [%s] with window %d (scripted as [%s])'
+                                          % (bad[1], ' '.join(I.pev_str(e) for e in real), limit,
+                                             ' '.join(I.pev_str(e) for e in evs)),
+                                     replay={'kind': 'proc-events', 'limit': limit,
+                                             'events': [I.pev_str(e) for e in evs]}))
+        return fails
+    res.failures += _dedupe(pair.run(run_procs(), timeout=1500))
+    res.nontrivial += len(rcases) + len(pcases)
 
 
 # ---------------------------------------------------------------------------
@@ -1023,7 +1305,11 @@ def oracle_redirect(ctx: Ctx, res: OracleResult, hist: Hist) -> None:
         fails: List[Failure] = []
         for kind, data, pieces, window, recv_eof, i in cases:
             chunker = pair.seeded_chunker(ctx.subrng('oracle-redirect-hub%d' % i), 64) if i % 2 else None
-            bad = await run_redirect_case(kind, data, pieces, window, recv_eof, chunker, tmpdir, str(i))
+            try:
+                bad = await asyncio.wait_for(
+                    run_redirect_case(kind, data, pieces, window, recv_eof, chunker, tmpdir, str(i)), 120)
+            except Exception as e:      # noqa: BLE001  (TimeoutError included)
+                bad = 'the scenario could not be played: %s: %s' % (type(e).__name__, e)
             res.evaluations += 1
             hist.hit('redirect:' + kind)
             if bad:
@@ -1117,7 +1403,10 @@ def oracle_drain(ctx: Ctx, res: OracleResult, hist: Hist) -> None:
     async def run_all() -> List[Failure]:
         fails = []
         for window, total, how in cases:
-            bad = await run_drain_case(window, total, how)
+            try:
+                bad = await asyncio.wait_for(run_drain_case(window, total, how), 120)
+            except Exception as e:      # noqa: BLE001  (TimeoutError included)
+                bad = 'the scenario could not be played: %s: %s' % (type(e).__name__, e)
             res.evaluations += 1
             hist.hit('drain:' + how)
             if bad:
@@ -1135,6 +1424,7 @@ def oracle(ctx: Ctx) -> OracleResult:
     hist = Hist()
     oracle_spec(ctx, res, hist)
     oracle_exit(ctx, res, hist)
+    oracle_hostile(ctx, res, hist)
     oracle_redirect(ctx, res, hist)
     oracle_drain(ctx, res, hist)
     res.failures = _dedupe(res.failures)
@@ -1144,8 +1434,11 @@ def oracle(ctx: Ctx) -> OracleResult:
                 'short streams, arrivals before/between/during the calls, limits 0/1/3/8, text mode, a real channel '
                 'under transport re-chunking) against a Python specification; (b) all conformant orderings of '
                 '{2 stdout, 1 stderr, EOF, exit-status, CLOSE} x wait() first/last + random event lists with loop '
-                'turns, redirect, late wait, disconnect after CLOSE + servers written against the public API; '
-                '(c) 9 redirect target kinds (incl. redirect set up after data+EOF arrived); (d) drain vs read/close/cut; distinct = distinct cases')
+                'turns, redirect, late wait, disconnect after CLOSE (window-conforming raw peer) + servers written '
+                'against the public API; (b\') hostile peer: one packet exceeding what is left of the window by '
+                '1..5 windows (reader on either side, process; paused or not, buffer empty/partly/completely full) '
+                'must close the connection with Window exceeded and deliver only a prefix of what was sent inside the '
+                'window, a packet filling the window exactly must be delivered; (c) 9 redirect target kinds (incl. redirect set up after data+EOF arrived); (d) drain vs read/close/cut; distinct = distinct cases')
     return res
 
 
@@ -1162,27 +1455,26 @@ def replay(ctx: Ctx, rep: Dict[str, Any]) -> List[Failure]:
         dels = [(n, l, [I.parse_tok(x) for x in tk]) for n, l, tk in r['deliveries']]
 
         async def go() -> List[Failure]:
-            wire = None
-            if any(n.startswith('wire') for n, _l, _t in dels):
-                wire = I.Wire()
-                await wire.start()
+            wire = I.Rig()
             bad = await eval_spec_case(data, ops, dels, wire)
-            if wire:
-                await wire.stop()
+            await wire.close()
             return [spec_failure(data, ops, d, a, e, i, sig) for d, a, e, i, sig in bad]
         return pair.run(go())
     if kind == 'proc-events':
-        evs: List[Tuple] = []
-        for x in r['events']:
-            if x[0] in 'dD':
-                evs.append((x[0], unhx(x[1:])))
-            elif x[0] in 'sSxr':
-                evs.append((x[0], int(x[1:])))
-            else:
-                evs.append((x,))
-        obs = pair.run(I.run_proc_events(r['limit'], evs))
-        bad = exit_predicate(evs, obs)
+        evs = [I.parse_pev(x) for x in r['events']]
+        bad, _real = pair.run(eval_exit_case(r['limit'], evs))
         return [Failure(bad[0], bad[1], r)] if bad else []
+    if kind == 'hostile-reader':
+        async def go_h() -> List[Failure]:
+            rig = I.Rig()
+            try:
+                bad, _f = await run_hostile_reader(rig, r['mode'], r['window'], [bytes.fromhex(c) for c in r['chunks']],
+                                                   r['pre_read'], r['over'])
+            except Exception as e:      # noqa: BLE001
+                bad = ('hostile-peer:scenario-failed:' + type(e).__name__, str(e))
+            await rig.close()
+            return [Failure(bad[0], bad[1], r)] if bad else []
+        return pair.run(go_h())
     if kind == 'proc-api':
         import random
         chunker = pair.seeded_chunker(random.Random(r['chunker_seed']), 64) if r.get('chunker_seed') is not None else None
